@@ -32,6 +32,32 @@ def check_case(ctx, cs):
     bad = {k: (res[k], want[k]) for k in want if bool(res[k]) != want[k]}
     if bad:
         ctx.violate(site, tg, small, {"got_vs_expected": bad})
+    # the same comparison reached by EDITING an object that has already been compared: X == deepcopy(X), the copy is edited into
+    # B through the public setters, compared, edited back, compared
+    unit_range = all(U[0] == [0, 1] and U[-1] == [1, 1] for U in o["B"]["kv"] + a["kv"])    # (setters of a normalising object rescale other ranges)
+    if a["deg"] == o["B"]["deg"] and a["size"] == o["B"]["size"] and a["rat"] == o["B"]["rat"] and unit_range:
+        from ..adapter import shape_floats
+        try:
+            X = build(a, **extra)
+            Y = copy.deepcopy(X)
+            first = (X == Y) and (Y == X)
+
+            def edit(obj, shp):
+                f = shape_floats(shp)
+                obj.set_ctrlpts([list(q) for q in f["P"]], *f["size"])
+                if len(f["deg"]) == 1:
+                    obj.knotvector = list(f["kv"][0])
+                else:
+                    for nm, U in zip("uvw", f["kv"]):
+                        setattr(obj, "knotvector_" + nm, list(U))
+            edit(Y, o["B"])
+            second = {"X==Y": X == Y, "Y==X": Y == X, "X!=Y": X != Y}
+            edit(Y, a)
+            third = (X == Y) and (Y == X)
+            if not first or not third or bool(second["X==Y"]) != exp or bool(second["Y==X"]) != exp or bool(second["X!=Y"]) == exp:
+                ctx.violate(site, tg + ["compare_edit_compare"], small, {"before_edit": first, "after_edit": second, "expected_equal": exp, "after_undo": third})
+        except Exception as e:
+            ctx.violate(site, tg + ["compare_edit_compare", "raises"], small, {"exception": repr(e)[:200]})
     if pk == "same":
         # a deep copy equals its source whatever the (user-chosen) object id, name or sampling is
         for oid in (1, 2, 3, 4):
